@@ -2,7 +2,7 @@
    Evaluated either by vm_compute inside coqc or by the OCaml program extracted from this file. *)
 From Coq Require Import ZArith List Bool String Ascii.
 From Coq.Strings Require Import Byte.
-From CP Require Import Core.Bytes Core.Result Core.Show Prim.Int Prim.Mpint Prim.Timestamp Base.Enum Base.Array Frame.LVFrame Frame.Units Frame.Entry Reader.Reader Spec.PL Spec.TlsSpec Spec.Ja3 Tls.Ja3Model Spec.KeyTag Spec.DnsSpec Dns.KeyTag Spec.SshSpec Ssh.Record Spec.OppSpec Opp.Rdp Text.Field.
+From CP Require Import Core.Bytes Core.Result Core.Show Prim.Int Prim.Mpint Prim.Timestamp Base.Enum Base.Array Frame.LVFrame Frame.Units Frame.Entry Reader.Reader Spec.PL Spec.TlsSpec Spec.Ja3 Tls.Ja3Model Spec.KeyTag Spec.DnsSpec Dns.KeyTag Spec.SshSpec Ssh.Record Spec.OppSpec Opp.Rdp Text.Field Frame.Ssl2.
 From CPGen Require Import Tables.
 Import ListNotations.
 Local Open Scope string_scope.
@@ -184,6 +184,15 @@ Definition cert_options_of_string (s : string) : list (bytes * option bytes) :=
                      | [n; d] => (bytes_of_hex n, if String.eqb d "_" then None else Some (hex_or_empty d))
                      | _ => ([], None)
                      end) (split_on "|" s "").
+(* ---- SSL 2.0 records: message and error types come from the generated IntEnum table; the hello messages are not
+   modelled and are reported as such ---- *)
+Definition int_enum_codes (name : string) : list Z :=
+  match find (fun t => String.eqb (fst t) name) int_enum_members with Some (_, ms) => map snd ms | None => [] end.
+Definition ssl2_msg_runner (t : Z) (m : bytes) : result Z :=
+  if (t =? 1) || (t =? 4) then Err OutOfFuel else ssl2_msg (int_enum_codes "SslErrorType") t m.
+Definition show_ssl2 (r : (Z * bytes * bytes) * Z) : string :=
+  string_of_Z (fst (fst (fst r))) ++ " " ++ hex_of_bytes (snd (fst (fst r))) ++ " n=" ++ string_of_Z (snd r).
+
 (* ---- text fields ---- *)
 Definition show_comp (c : comp) : string :=
   hex_of_bytes (fst c) ++ ":" ++ match snd c with None => "-" | Some v => "v" ++ hex_of_bytes v end.
@@ -212,6 +221,8 @@ Definition text_cmd (ws : list string) : option string :=
                                            (fvm c sch (hex_or_empty h)))
       | None => Some "BADCMD"
       end
+  | ["pssl2"; h] => Some (show_result show_ssl2 (ssl2_parse ssl2_msg_runner (int_enum_codes "SslMessageType") (hex_or_empty h)))
+  | ["cssl2"; t; h] => Some (show_result hex_of_bytes (ssl2_compose (z_of_string t) (hex_or_empty h)))
   | ["hline"; strict; h] =>
       Some (show_result (fun r => hex_of_bytes (fst (fst r)) ++ " " ++ hex_of_bytes (snd (fst r)) ++ " n=" ++ string_of_Z (snd r))
                         (if String.eqb strict "1" then
